@@ -3,7 +3,7 @@ import json
 import _merkle as mk
 
 INV = ["XRootOK", "XCompleteOK"]
-PROPS = ["XSoundOK", "XExactOK"]
+PROPS = ["XSoundOK", "XExactOK", "XFunctionOK"]
 ACTS = ["Grow", "GenPath", "Prove"]
 
 
